@@ -139,6 +139,7 @@ type PropSpec struct {
 	Profiles []string
 	Classes  []string // mismatch classes that refute the property ("*" = all)
 	OpKinds  []int    // any mismatch of a state class during one of these operations refutes it too
+	OnExpired bool    // ... and so does one during an operation applied to an expired-but-unswept key
 	Quick    int      // cases
 	Thorough int
 	MinOps   int
@@ -149,7 +150,7 @@ type PropSpec struct {
 var Specs = map[string]*PropSpec{
 	"C01": {Profiles: []string{"mix", "expiry", "size", "load", "refresh", "stats", "sweep", "queued"}, Classes: []string{"*"}, Quick: 24000, Thorough: 2000000, MinOps: 80, MaxOps: 300,
 		Rule: "a generated operation sequence (config, ops) run against the model after every operation; non-trivial = at least 20 operations and at least one of: automatic removal, operation on an expired-unswept key, loader invocation; distinct = hash of (config, ops)"},
-	"C03": {Profiles: []string{"expiry"}, Classes: []string{"expired"}, Quick: 16000, Thorough: 1000000, MinOps: 60, MaxOps: 250,
+	"C03": {Profiles: []string{"expiry"}, Classes: []string{"expired"}, OnExpired: true, Quick: 16000, Thorough: 1000000, MinOps: 60, MaxOps: 250,
 		Rule: "expiry-biased sequence (clock moved exactly onto deadlines, no CleanUp) where every public operation is applied to expired-but-unswept keys; non-trivial = at least 3 operations hit an expired-unswept key; distinct = hash of (config, ops)"},
 	"C07": {Profiles: []string{"size", "mix", "sweep", "queued"}, Classes: []string{"overflow", "bound"}, Quick: 16000, Thorough: 1000000, MinOps: 80, MaxOps: 400,
 		Rule: "size-biased sequence; every Overflow/Expiration event is judged against the model's total weight / deadline at that moment; non-trivial = at least one automatic removal; distinct = hash of (config, ops)"},
@@ -171,7 +172,13 @@ var Specs = map[string]*PropSpec{
 		Rule: "sequence with a stats recorder; Stats() compared with the model's tallies after every operation; non-trivial = at least 10 counted lookups and one load; distinct = hash of (config, ops)"},
 }
 
-func (s *PropSpec) refutes(class string, opKind int) bool {
+func (s *PropSpec) refutes(class string, opKind int, onExpired ...bool) bool {
+	if s.OnExpired && len(onExpired) > 0 && onExpired[0] {
+		switch class {
+		case "ret", "event", "calc", "deadline", "views":
+			return true // the operation treated a dead entry as if it were there
+		}
+	}
 	for _, c := range s.Classes {
 		if c == "*" || c == class {
 			return true
@@ -345,7 +352,7 @@ func RunProperty(col *core.Collector, prop, tier string, seed uint64, shard, nsh
 			if len(c.Ops) > 0 {
 				failedKind = c.Ops[len(c.Ops)-1].Kind
 			}
-			if !spec.refutes(mm[0].Class, failedKind) {
+			if !spec.refutes(mm[0].Class, failedKind, mm[0].OnExpired) {
 				otherClasses[mm[0].Class]++
 				continue
 			}
